@@ -1,9 +1,9 @@
 """C03 -- compile-time shadow-test evaluation agrees with the compiled program.
 Proof: NV/Props/Properties_C03.v
   interp_correct            names_apart sp -> every shadow block on which the reference semantics is defined: the evaluator model
-                            (Back/InterpSem, the tree walker AS IT IS: one symbol stack, no pop at block exit, ...) prints the same
+                            (Back/InterpSem, the tree walker AS IT IS: one symbol stack = dynamic scoping, blocks pop since fix 9481a65, ...) prints the same
                             text, records no failed assertion when the reference passes and one when the reference fails
-  interp_correct_refuted    without names_apart it is false (SPECIFICATION 8.1 program; block-exit program), by vm_compute
+  interp_correct_refuted    without names_apart it is false (SPECIFICATION 8.1 program; parameter named like a constant), by vm_compute
   pass_at_compile_time_passes_at_run_time   with Back/Agree.nat_ltor_is_ref
 Oracles on the implementation (no model involved):
   (N) text printed between "Testing f... " and PASSED/FAILED + number of failed assertions of real `nanoc --verbose`
@@ -86,7 +86,7 @@ def record(ck, c, res, stream):
                     S.replay_dict(c, correspondence='Back.InterpSem/Driver.ShadowGate vs nanoc --verbose', discrepancies=res['tie']), tie=True)
         return diverged
     if stream == 'clash':
-        # the evaluator is known to deviate here (open findings c03:dynamic-scope, c03:block-exit, ...): a divergence is
+        # the evaluator is known to deviate here (open findings c03:dynamic-scope, c03:string-escapes, ...): a divergence is
         # attributed to them only when (1) the program is outside names_apart and (2) the model, which implements exactly
         # those mechanisms, predicts the real compile-time behaviour byte for byte
         if res['tie']:
@@ -150,9 +150,12 @@ def run(ck):
     cases = S.build_cases(ck, nvl, [ck.seed * 100003 + i for i in range(n)], cfg, modes, 's%d' % ck.seed)
     S.run_models(nv3, nvl, cases)
     S.run_real(b, cases, 'c03m')
+    # block-local shadowing may pick a top-level constant's name: such a program is outside names_apart (dynamic scoping is an
+    # OPEN finding) and is judged like the clash stream: the model must predict whatever the evaluator does
     for c in cases:
-        r = evaluate(ck, c, 'gen')
-        record(ck, c, r, 'gen')
+        stream = 'gen' if c.m_apart else 'clash'
+        r = evaluate(ck, c, stream)
+        record(ck, c, r, stream)
         ck.extra['modes'][c.mode] += 1
         ck.extra['apart'][str(c.m_apart)] += 1
         for f in c.feat:
